@@ -20,6 +20,8 @@ def run(ck):
     ck.assumptions += ['the product kernel\'s categorical path queries CUDA for a batch size and raises on CPU: the harness substitutes a constant batch size in its own process only (observation, see DESIGN.md)',
                        'tolerance 1e-9 (float64)']
     ck.check_theorems()
+    from harness import catops
+    catops.check_translation(ck)
     rng = np.random.default_rng(ck.seed + 1515)
     T = lambda a: torch.tensor(a, dtype=torch.float64)
     lemmas = []; lmeta = {}
